@@ -9,7 +9,14 @@ HOOKS = {
     "add_only": True,
 }
 ENGINES = [
-    {"name": "kani", "path": "/verif/kani", "serves_properties": [],
+    {"name": "engine-F", "path": "/verif/fkern", "serves_properties": ["C07", "C15"],
+     "kind_free_text": "MIR (cargo +nightly rustc -Zunpretty=mir of /repo) -> C (fkern/mir2c.py) -> CBMC 6.11 with unwinding assertions; "
+                       "translation validated natively against the real functions on ~24k inputs per run; counterexamples replayed "
+                       "through the real functions (native/vnative check-prop)"},
+    {"name": "engine-T", "path": "/verif/vlib/engine_t.py", "serves_properties": ["C01", "C07", "C08", "C09", "C16"],
+     "kind_free_text": "native dump of the real UNIT_CONVERSION_TABLE / KNOWN_COMPATIBILITIES (through the hook) into a generated match "
+                       "function the Kani harnesses quantify over; checks the powi table used by the f64::powi stub"},
+    {"name": "kani", "path": "/verif/kani", "serves_properties": ["C01", "C03", "C07", "C08", "C09", "C13", "C15", "C16", "C17", "C18", "C19"],
      "kind_free_text": "Kani 0.68 / CBMC 6.11 / CaDiCaL: bounded symbolic execution of the real grass_compiler functions "
                        "(compiled from /repo on every run), unwinding assertions on, counterexamples replayed natively"},
 ]
